@@ -117,3 +117,9 @@ BUDGET = {
     "quick": {"single-grid": 6000, "single-random": 1500},
     "thorough": {"single-grid": 150000, "single-random": 40000},
 }
+
+
+EXTRA_TRUST = globals().get("EXTRA_TRUST", []) + [
+    "T2 (this property): the theorems of Props/C01FloatDiv.v (int(a / b) of DIV/REM = Z.quot / Z.rem) depend on the standard-library "
+    "axioms ClassicalDedekindReals.sig_forall_dec, ClassicalDedekindReals.sig_not_dec, FunctionalExtensionality."
+    "functional_extensionality_dep and Classical_Prop.classic (real numbers; Flocq's `round`); all other theorems are closed"]
